@@ -56,6 +56,8 @@ type roaEvent struct {
 	Data      []byte
 	conn      *net.TCPConn
 	timestamp time.Time
+	// timerGen identifies the lifetime timer a roaLifetimeout event comes from
+	timerGen uint64
 }
 
 type roaManager struct {
@@ -63,6 +65,8 @@ type roaManager struct {
 	clientMap map[string]*roaClient
 	table     *table.ROATable
 	logger    *slog.Logger
+	// timerGen counts the lifetime timers armed so far
+	timerGen uint64
 }
 
 func newROAManager(table *table.ROATable, logger *slog.Logger) *roaManager {
@@ -146,11 +150,12 @@ func (m *roaManager) ReceiveROA() chan *roaEvent {
 	return m.eventCh
 }
 
-func (c *roaClient) lifetimeout() {
+func (c *roaClient) lifetimeout(gen uint64) {
 	c.eventCh <- &roaEvent{
 		EventType: roaLifetimeout,
 		Src:       c.host,
 		timestamp: time.Now(),
+		timerGen:  gen,
 	}
 }
 
@@ -181,7 +186,10 @@ func (m *roaManager) HandleROAEvent(ev *roaEvent) {
 		// the lifetime counts from the first disconnect after the last
 		// completed synchronisation; End of Data stops the timer
 		if client.timer == nil {
-			client.timer = time.AfterFunc(time.Duration(client.lifetime)*time.Second, client.lifetimeout)
+			m.timerGen++
+			gen := m.timerGen
+			client.timerGen = gen
+			client.timer = time.AfterFunc(time.Duration(client.lifetime)*time.Second, func() { client.lifetimeout(gen) })
 		}
 		client.oldSessionID = client.sessionID
 	case roaConnected:
@@ -200,7 +208,18 @@ func (m *roaManager) HandleROAEvent(ev *roaEvent) {
 		//
 		// c) already reconnected and received EndOfData so
 		// all stale ROAs were deleted -> timer was cancelled
-		// so should not be here.
+		// so should not be here, unless the timer had already fired
+		// when it was stopped and this event was waiting in the
+		// channel: an event that is not from the timer currently armed
+		// (stopped by End of Data, replaced by a later one, or armed
+		// for a server deleted since) is stale.
+		if client.timer == nil || ev.timerGen != client.timerGen {
+			m.logger.Info("Ignore timeout of a stopped timer",
+				slog.String("Topic", "rpki"),
+				slog.String("Key", client.host),
+			)
+			break
+		}
 		client.timer = nil
 		if client.oldSessionID != client.sessionID {
 			m.logger.Info("Reconnected, ignore timeout",
@@ -364,6 +383,7 @@ type roaClient struct {
 	oldSessionID uint16
 	serialNumber uint32
 	timer        *time.Timer
+	timerGen     uint64
 	lifetime     int64
 	endOfData    bool
 	// queries holds the types of the queries sent and not yet answered,
